@@ -5,7 +5,7 @@
 (* that may reject.                                                           *)
 EXTENDS Ideal, TLC
 
-CONSTANTS LocalKeys, SecretKeys, PublicKeys, ClaimsSet, FooterSet, AadSet, Vers, MaxTokens, MaxBlobs, Passwords
+CONSTANTS LocalKeys, SecretKeys, PublicKeys, ClaimsSet, FooterSet, AadSet, Vers, MaxTokens, MaxBlobs, Passwords, MaxDraws, MaxGen
 
 AllKeys == LocalKeys \cup SecretKeys \cup PublicKeys
 Wires == 1..(MaxTokens + 1)            \* one more than can be emitted: a never-sealed (forged) wire
@@ -32,7 +32,10 @@ MCNext ==
   \/ /\ Cardinality(tokens) < MaxTokens
      /\ \E ver \in Vers, p \in Purposes, c \in ClaimsSet, f \in FooterSet, a \in AadSet :
           \E k \in (IF p = "local" THEN LocalKeys ELSE SecretKeys) : SealBegin(ver, p, k, c, f, a)
-  \/ \E ok \in BOOLEAN : Draw(ok) \/ EncodeFooter(ok) \/ EncodeClaims(ok)
+  \/ \E ok \in BOOLEAN : (op.kind \in {"seal", "wrap", "gen"} /\ Len(op.drawn) < MaxDraws /\ Draw(ok, 200 + Len(op.drawn))) \/ EncodeFooter(ok) \/ EncodeClaims(ok)
+  \/ \E ver \in Vers, kd \in {"local", "secret"} : Cardinality({u \in used : u >= 300}) < MaxGen /\ GenBegin(ver, kd)
+  \/ GenEmit(300 + Cardinality(used))
+  \/ \E e \in ErrClasses : GenFail(e)
   \/ Emit(FreshWire, {FreshWire})
   \/ \E e \in ErrClasses : SealFail(e)
   \/ \E ver \in Vers, p \in Purposes, w \in Wires, f \in FooterSet, a \in AadSet :
@@ -68,7 +71,8 @@ InvHonestSealSucceeds ==
 
 \* C16: nothing is emitted once a draw or an encoder failed
 InvFailClosed ==
-  (op.kind \in {"seal", "wrap"} /\ op.failed) => ~ENABLED Emit(FreshWire, {FreshWire}) /\ ~ENABLED WrapEmit(FreshBlob, {FreshBlob})
+  (op.kind \in {"seal", "wrap", "gen"} /\ op.failed) =>
+     /\ ~ENABLED Emit(FreshWire, {FreshWire}) /\ ~ENABLED WrapEmit(FreshBlob, {FreshBlob}) /\ ~ENABLED GenEmit(300 + Cardinality(used))
 
 \* C02: a forged wire, another key, another footer or assertion is never authentic
 InvAuthIsTableMembership ==
